@@ -32,12 +32,15 @@ pub enum Kind {
     BrowsedChurn,
     /// Re-announcements of one browsed instance, again and again.
     Reannounce,
+    /// PTR answers of the browsed type whose instances never show any other record (ghosts): the daemon's
+    /// follow-up questions go unanswered and have to stop by themselves.
+    GhostPtrs,
     Mixed,
 }
 
 fn foreign_packet(rng: &mut Rng, kind: Kind, n: u64, ttl: u32) -> Message {
     let mut m = Message::response();
-    let k = if kind == Kind::Mixed { *rng.pick(&[Kind::ForeignType, Kind::Orphans, Kind::Nsec, Kind::BrowsedChurn, Kind::Reannounce]) } else { kind };
+    let k = if kind == Kind::Mixed { *rng.pick(&[Kind::ForeignType, Kind::Orphans, Kind::Nsec, Kind::BrowsedChurn, Kind::Reannounce, Kind::GhostPtrs]) } else { kind };
     match k {
         Kind::ForeignType => {
             let mut s = Svc::new("_other._tcp.local.", &format!("f{n}"), &format!("fh{n}.local"), [10, 0, 1, (n % 250) as u8]);
@@ -82,6 +85,10 @@ fn foreign_packet(rng: &mut Rng, kind: Kind, n: u64, ttl: u32) -> Message {
             s.ttl_txt = ttl;
             s.ttl_addr = ttl;
             m = s.announce();
+        }
+        Kind::GhostPtrs => {
+            let inst = wire::name(&format!("g{n}._t._udp.local"));
+            m.answers.push(wire::ptr(&wire::name(BROWSED), ttl, &inst));
         }
         Kind::Mixed => unreachable!(),
     }
@@ -332,7 +339,7 @@ pub fn g3(seed: u64, kind: Kind, l: &mut Local) {
     }
 }
 
-const KINDS: [Kind; 6] = [Kind::ForeignType, Kind::Orphans, Kind::Nsec, Kind::BrowsedChurn, Kind::Reannounce, Kind::Mixed];
+const KINDS: [Kind; 7] = [Kind::ForeignType, Kind::Orphans, Kind::Nsec, Kind::BrowsedChurn, Kind::Reannounce, Kind::GhostPtrs, Kind::Mixed];
 
 pub fn run_one(seed: u64, i: u64, l: &mut Local) {
     let kind = KINDS[(i % 6) as usize];
@@ -367,7 +374,7 @@ pub fn run_one(seed: u64, i: u64, l: &mut Local) {
 pub fn run(report: &Report, tier: &Tier) {
     report.set_rule(
         "traffic scenarios: 40..100 (x1..x4) packets, 20..220 ms apart, of one kind or mixed: announcements of a type nobody browses, SRV/TXT/ \
-         address records without PTR, NSEC records, instances of the browsed type that come and go (with subtypes, goodbyes), endless \
+         address records without PTR, NSEC records, instances of the browsed type that come and go (with subtypes, goodbyes), PTR-only instances that never resolve, endless \
          re-announcements of one instance; TTLs up to {2,10,60,120} s; with/without browse, hostname search, own registration, accept_unsolicited; \
          G1 after stopping every search and waiting max TTL + 3 s, G2 at a checkpoint every 25 packets, G3 pairs 1x/4x; distinct by scenario description",
     );
